@@ -23,6 +23,15 @@
  * to match exactly once; the three kinds of atomic accesses are macros that do not evaluate
  * their pointer argument (the driver checks that all of them name &rproc.st).
  */
+#ifndef API
+#define API 0
+#endif
+/* (n) name space: the file system is shared by all threads of the process exactly like memory.  A per-thread
+ * call (everything but proc_init/proc_fini/add_cpu/proc_set_rank) that creates, replaces or renames a file
+ * outside the calling thread's own directory uses a name that every other thread of the process computes
+ * identically; nothing orders those writers. */
+static void c11_foreign_path(const char *path, int wr);
+#define GFS_FOREIGN_PATH_HOOK(path, wr) c11_foreign_path(path, wr)
 #include "ghostfs.h"
 #include "libc_model.h"
 #include "diag.h"
@@ -51,6 +60,18 @@ struct inputs {
 V_INPUTS;
 static const struct gfs_inputs *gfs_in(void) { return &IN.fs; }
 static void gfs_crash_invariant(void) { }
+static int c11_under(const char *p, const char *dir)
+{
+	int i = 0;
+	for (; i < 64 && dir[i]; i++) if (p[i] != dir[i]) return 0;
+	return p[i] == '/';
+}
+static void c11_foreign_path(const char *path, int wr)
+{
+	int per_thread = (API == 2 || (API >= 5 && API <= 9));
+	if (per_thread && wr && !c11_under(path, gfs_dirname[D_THR]) && !c11_under(path, gfs_dirname[T_THR]))
+		V_ASSERT(0, "C11: a per-thread call writes no file outside the calling thread's own directory (the name is shared by all threads of the process)");
+}
 
 /* ---- ghost protocol state ---- */
 enum { G_UNINIT = 0, G_INIT, G_READY, G_GONE };
